@@ -767,7 +767,10 @@ fn collapse_root_stack_to<NumericTypes: EvalexprNumericTypes>(
     loop {
         if let Some(mut potential_higher_root) = root_stack.pop() {
             // TODO I'm not sure about this >, as I have no example for different sequence operators with the same precedence
-            if potential_higher_root.operator().precedence() > collapse_goal.operator().precedence()
+            // Only sequences are collapsed, the root node of the current parenthesis level stays on the stack
+            if potential_higher_root.operator().is_sequence()
+                && potential_higher_root.operator().precedence()
+                    > collapse_goal.operator().precedence()
             {
                 potential_higher_root.children.push(root);
                 root = potential_higher_root;
@@ -946,8 +949,24 @@ pub(crate) fn tokens_to_operator_tree<NumericTypes: EvalexprNumericTypes>(
                         } else {
                             // If the new sequence doesn't have a higher precedence, then all sequences with a higher precedence are collapsed below this one
                             root = collapse_root_stack_to(&mut root_stack, root, &node)?;
-                            node.children.push(root);
-                            root_stack.push(node);
+                            // The collapsed sequence is a complete element of the new sequence.
+                            // If a sequence of the same kind is already open on this level, it is continued instead of being nested.
+                            let mut sequence = match root_stack.pop() {
+                                Some(open)
+                                    if mem::discriminant(open.operator())
+                                        == mem::discriminant(node.operator()) =>
+                                {
+                                    open
+                                },
+                                Some(other) => {
+                                    root_stack.push(other);
+                                    node
+                                },
+                                None => return Err(EvalexprError::UnmatchedRBrace),
+                            };
+                            sequence.children.push(root);
+                            sequence.children.push(Node::root_node());
+                            root_stack.push(sequence);
                         }
                     }
                 // println!("Stack after sequence operation: {:?}", root_stack);
